@@ -24,6 +24,8 @@ type recParser struct {
 	mu    sync.Mutex
 	lines []string
 	seen  chan string
+	// return one event per line (for the rigs that also watch the event handler)
+	events bool
 }
 
 func (p *recParser) LineToEvents(line string, _ prometheus.CounterVec, _ prometheus.Counter, _ prometheus.Counter, _ prometheus.Counter, _ *slog.Logger) event.Events {
@@ -33,12 +35,41 @@ func (p *recParser) LineToEvents(line string, _ prometheus.CounterVec, _ prometh
 	if p.seen != nil {
 		p.seen <- line
 	}
+	if p.events { // one event per line, named after the line: what reaches the event handler can be told apart
+		return event.Events{&event.CounterEvent{CMetricName: line, CValue: 1}}
+	}
 	return nil
 }
 
 type nullHandler struct{}
 
 func (nullHandler) Queue(event.Events) {}
+
+// recHandler records the names of the events the listener hands to the event handler, in order
+type recHandler struct {
+	mu    sync.Mutex
+	names []string
+}
+
+func (h *recHandler) Queue(es event.Events) {
+	h.mu.Lock()
+	for _, e := range es {
+		h.names = append(h.names, e.MetricName())
+	}
+	h.mu.Unlock()
+}
+
+func sameStrings(a, b []string) int {
+	if len(a) != len(b) {
+		return 0
+	}
+	for i := range a {
+		if a[i] != b[i] {
+			return 0
+		}
+	}
+	return 1
+}
 
 func ctr() prometheus.Counter { return prometheus.NewCounter(prometheus.CounterOpts{Name: "x"}) }
 func ctrVal(c prometheus.Counter) int {
@@ -153,9 +184,10 @@ func frameTCP(payload string, sizes []int) string {
 		must(err)
 		tcpLn = ln
 	}
-	p := &recParser{}
+	p := &recParser{events: true}
+	eh := &recHandler{}
 	lines, tooLong := ctr(), ctr()
-	l := &listener.StatsDTCPListener{Conn: tcpLn, EventHandler: nullHandler{}, Logger: nopLogger, LineParser: p,
+	l := &listener.StatsDTCPListener{Conn: tcpLn, EventHandler: eh, Logger: nopLogger, LineParser: p,
 		LinesReceived: lines, EventsFlushed: ctr(),
 		SampleErrors:    *prometheus.NewCounterVec(prometheus.CounterOpts{Name: "se"}, []string{"reason"}),
 		SamplesReceived: ctr(), TagErrors: ctr(), TagsReceived: ctr(), TCPConnections: ctr(), TCPErrors: ctr(), TCPLineTooLong: tooLong}
@@ -195,7 +227,8 @@ func frameTCP(payload string, sizes []int) string {
 		return "timeout"
 	}
 	c.Close()
-	return fmt.Sprintf("%s lines=%d toolong=%d", linesStr(p.lines), ctrVal(lines), ctrVal(tooLong))
+	// every line's events must have reached the event handler, in line order, when the connection handler returns
+	return fmt.Sprintf("%s lines=%d toolong=%d queued=%d qsame=%d", linesStr(p.lines), ctrVal(lines), ctrVal(tooLong), len(eh.names), sameStrings(eh.names, p.lines))
 }
 
 // frame dgram|udp|unixgram|tcp <hexpayload> [chunk sizes]
